@@ -1161,3 +1161,563 @@ func ruleINEFF1(c *Ctx) {
 	}
 	c.Floor("re-assigned locals analysed for dead stores", nVars, 200)
 }
+
+// ---- NILIFACE-1 -----------------------------------------------------------------
+
+func init() {
+	register(&Rule{ID: "NILIFACE-1", Doc: "no typed nil in an interface-typed option field: every store into an interface-typed field of jsonopts.Struct (Marshalers, Unmarshalers) stores an untyped nil, a copy of the same field of another Struct, or a pointer that is known non-nil at that point — readers test the field against nil and then select through a type assertion (`.(*Marshalers).fromAny`), so a nil *Marshalers (documented as an empty list, and what JoinMarshalers() returns) wrapped in the interface passes the test and is dereferenced", Run: ruleNILIFACE1})
+}
+
+func ruleNILIFACE1(c *Ctx) {
+	p := c.P
+	st := p.NamedType("jsonopts", "Struct")
+	if st == nil {
+		c.Undecide("jsonopts.Struct", "type missing")
+		return
+	}
+	// interface-typed fields reachable in Struct (through embedded structs)
+	ifaceFields := map[*types.Var]bool{}
+	var walk func(t types.Type, depth int)
+	walk = func(t types.Type, depth int) {
+		s, ok := t.Underlying().(*types.Struct)
+		if !ok || depth > 3 {
+			return
+		}
+		for i := 0; i < s.NumFields(); i++ {
+			f := s.Field(i)
+			if _, isI := f.Type().Underlying().(*types.Interface); isI {
+				ifaceFields[f] = true
+			}
+			if f.Embedded() {
+				walk(f.Type(), depth+1)
+			}
+		}
+	}
+	walk(st, 0)
+	if len(ifaceFields) == 0 {
+		c.Undecide("jsonopts.Struct/interface fields", "none found")
+		return
+	}
+	n := 0
+	for _, f := range p.FuncsIn("json", "jsonopts", "jsontext", "v1") {
+		if f.Body() == nil {
+			continue
+		}
+		info := f.Info()
+		k := 0
+		InspectNoLit(f.Body(), func(nd ast.Node) bool {
+			as, ok := nd.(*ast.AssignStmt)
+			if !ok || len(as.Lhs) != len(as.Rhs) {
+				return true
+			}
+			for i, l := range as.Lhs {
+				fv := SelField(info, l)
+				if fv == nil || !ifaceFields[fv] {
+					continue
+				}
+				n++
+				k++
+				r := ast.Unparen(as.Rhs[i])
+				ok, why := false, ""
+				switch {
+				case IsNilIdent(info, r):
+					ok = true
+				case SelField(info, r) == fv:
+					ok = true // copied from another Struct
+				default:
+					// the pointer being wrapped
+					inner := r
+					if call, isCall := r.(*ast.CallExpr); isCall && len(call.Args) == 1 {
+						if tv, isT := info.Types[call.Fun]; isT && tv.IsType() {
+							inner = ast.Unparen(call.Args[0])
+						}
+					}
+					if u, isU := inner.(*ast.UnaryExpr); isU && u.Op == token.AND {
+						ok = true // address of something
+						break
+					}
+					v := IdentObj(info, inner)
+					if v == nil {
+						why = "stored value `" + exprString(r) + "` is not a checked pointer"
+						break
+					}
+					if _, isPtr := v.Type().Underlying().(*types.Pointer); !isPtr {
+						ok = true
+						break
+					}
+					for _, cc := range dominatingConds(p, f, as) {
+						be, isB := ast.Unparen(cc.cond).(*ast.BinaryExpr)
+						if !isB {
+							continue
+						}
+						if (IdentObj(info, be.X) == v && IsNilIdent(info, be.Y)) || (IdentObj(info, be.Y) == v && IsNilIdent(info, be.X)) {
+							if (be.Op == token.NEQ && cc.then) || (be.Op == token.EQL && !cc.then) {
+								ok = true
+							}
+						}
+					}
+					if !ok {
+						why = "`" + v.Name() + "` may be nil here"
+					}
+				}
+				c.Oblige(fmt.Sprintf("no-typed-nil:%s:%s#%d", f.Name, fv.Name(), k), as.Pos(), ok,
+					"a possibly nil pointer is wrapped into the interface-typed option field "+fv.Name()+" ("+why+"): the field then compares unequal to nil, and readers that select through the type assertion dereference a nil pointer (Marshal of any `any` value panics with WithMarshalers(JoinMarshalers()))")
+			}
+			return true
+		})
+	}
+	c.Floor("stores into interface-typed option fields", n, 4)
+}
+
+// ---- PEEK-2 ---------------------------------------------------------------------
+
+func init() {
+	register(&Rule{ID: "PEEK-2", Doc: "the cached peek position never survives a buffer move: in every decoderState method that reads peekPos, each call that may fetch (fetch itself or anything that reaches it) is made on paths where peekPos is known to be zero — the position is an index into the buffer, and a failed read that keeps it leaves the next PeekKind/ReadValue looking at an arbitrary byte", Run: rulePEEK2})
+}
+
+func rulePEEK2(c *Ctx) {
+	p := c.P
+	peekPos := p.Field("jsontext", "decodeBuffer", "peekPos")
+	if peekPos == nil {
+		c.Undecide("jsontext.decodeBuffer.peekPos", "field missing")
+		return
+	}
+	sp := newStaleProg(p)
+	if len(sp.mayFetch) == 0 {
+		c.Undecide("jsontext.(*decoderState).fetch", "function missing")
+		return
+	}
+	n := 0
+	// functions that manage the cache themselves are checked on their own, a call to one is not a blind fetch
+	aware := map[*types.Func]bool{}
+	for _, f := range p.FuncsIn("jsontext") {
+		if f.Decl != nil && f.Obj != nil && f.Body() != nil && mentionsField(f.Info(), f.Body(), peekPos) {
+			aware[f.Obj] = true
+		}
+	}
+	for _, f := range p.FuncsIn("jsontext") {
+		if f.Decl == nil || f.Obj == nil || f.Body() == nil {
+			continue
+		}
+		info := f.Info()
+		if !mentionsField(info, f.Body(), peekPos) {
+			continue
+		}
+		callsFetch := false
+		InspectNoLit(f.Body(), func(nd ast.Node) bool {
+			if call, ok := nd.(*ast.CallExpr); ok {
+				if cf := Callee(info, call); cf != nil && sp.mayFetch[cf] {
+					callsFetch = true
+				}
+			}
+			return true
+		})
+		if !callsFetch {
+			continue
+		}
+		posAlias := map[types.Object]bool{}
+		InspectNoLit(f.Body(), func(nd ast.Node) bool {
+			if as, ok := nd.(*ast.AssignStmt); ok && len(as.Lhs) == len(as.Rhs) {
+				for i, r := range as.Rhs {
+					if isFieldSel(info, r, peekPos) {
+						if v := IdentObj(info, as.Lhs[i]); v != nil {
+							posAlias[v] = true
+						}
+					}
+				}
+			}
+			return true
+		})
+		type st struct{ zero tri }
+		var bad token.Pos
+		badName := ""
+		visitCalls := func(nd ast.Node, s st) {
+			for _, call := range CallsIn(nd) {
+				if cf := Callee(info, call); cf != nil && sp.mayFetch[cf] && !aware[cf] && s.zero != triYes && bad == token.NoPos {
+					bad, badName = call.Pos(), cf.Name()
+				}
+			}
+		}
+		fl := &Flow[st]{Fn: f}
+		fl.Node = func(nd ast.Node, s st) []st {
+			visitCalls(nd, s)
+			if as, ok := nd.(*ast.AssignStmt); ok && len(as.Lhs) == len(as.Rhs) {
+				for i, l := range as.Lhs {
+					if isFieldSel(info, l, peekPos) {
+						if v, isC := ConstI64(info, as.Rhs[i]); isC && v == 0 {
+							s.zero = triYes
+						} else {
+							s.zero = triNo
+						}
+					}
+				}
+			}
+			if _, ok := nd.(*ast.ReturnStmt); ok {
+				return nil
+			}
+			return []st{s}
+		}
+		fl.Leaf = func(e ast.Expr, s st) (t, fs []st) {
+			visitCalls(e, s)
+			if be, ok := e.(*ast.BinaryExpr); ok {
+				if v, isC := ConstI64(info, be.Y); isC && v == 0 && (isFieldSel(info, be.X, peekPos) || posAlias[IdentObj(info, be.X)]) {
+					yes, no := s, s
+					switch be.Op {
+					case token.NEQ, token.GTR:
+						no.zero = triYes
+						return []st{yes}, []st{no}
+					case token.EQL:
+						yes.zero = triYes
+						return []st{yes}, []st{no}
+					}
+				}
+			}
+			return []st{s}, []st{s}
+		}
+		fl.Run(st{zero: triUnknown})
+		n++
+		pos := f.Pos()
+		if bad != token.NoPos {
+			pos = bad
+		}
+		c.Oblige("no-fetch-with-cached-peek:"+f.Name, pos, bad == token.NoPos, "calls "+badName+" (which may fetch and move the buffer) on a path where the cached peekPos has not been reset: if the call fails, the stale index is what the next PeekKind/ReadValue uses")
+	}
+	c.Floor("decoder methods that read peekPos and may fetch", n, 2)
+}
+
+// ---- round k --------------------------------------------------------------------
+
+func init() {
+	register(&Rule{ID: "BBUF-1", Doc: "the encoder only ever aliases the unused tail of a caller's bytes.Buffer: in package jsontext nothing derived from (*bytes.Buffer).Bytes() is stored into encoder state (encodeBuffer.Buf, availBuffer); the alias is taken with AvailableBuffer() — building output over Bytes()[:0] overwrites what the buffer already holds", Run: ruleBBUF1})
+	register(&Rule{ID: "POOL-5", Doc: "a pooled scratch object goes back once: in every function that takes an object from getStrings / a sync.Pool Get wrapper and holds it in a local, no path returns it more than once (a deferred put counts for every exit) — a double put hands the same slice to two later borrowers", Run: rulePOOL5})
+}
+
+func ruleBBUF1(c *Ctx) {
+	p := c.P
+	n := 0
+	bufF := p.Field("jsontext", "encodeBuffer", "Buf")
+	availF := p.Field("jsontext", "encoderState", "availBuffer")
+	if bufF == nil {
+		c.Undecide("jsontext.encodeBuffer.Buf", "field missing")
+		return
+	}
+	for _, f := range p.FuncsIn("jsontext") {
+		if f.Body() == nil {
+			continue
+		}
+		info := f.Info()
+		k := 0
+		InspectNoLit(f.Body(), func(nd ast.Node) bool {
+			as, ok := nd.(*ast.AssignStmt)
+			if !ok || len(as.Lhs) != len(as.Rhs) {
+				return true
+			}
+			for i, l := range as.Lhs {
+				fv := SelField(info, l)
+				if fv == nil || (fv != bufF && fv != availF) {
+					continue
+				}
+				// does the right-hand side come from a *bytes.Buffer ?
+				fromBB, viaBytes := false, false
+				ast.Inspect(as.Rhs[i], func(m ast.Node) bool {
+					call, ok := m.(*ast.CallExpr)
+					if !ok {
+						return true
+					}
+					sel, ok := ast.Unparen(call.Fun).(*ast.SelectorExpr)
+					if !ok {
+						return true
+					}
+					if isPtrToNamed(info.TypeOf(sel.X), "bytes", "Buffer") {
+						fromBB = true
+						if sel.Sel.Name != "AvailableBuffer" {
+							viaBytes = true
+						}
+					}
+					return true
+				})
+				if !fromBB {
+					continue
+				}
+				n++
+				k++
+				c.Oblige(fmt.Sprintf("unused-tail-only:%s#%d", f.Name, k), as.Pos(), !viaBytes, "encoder state aliases `"+exprString(as.Rhs[i])+"`, which covers the bytes the buffer already holds: the first values written are built over existing content instead of the unused tail (AvailableBuffer)")
+			}
+			return true
+		})
+	}
+	c.Floor("encoder buffers aliased from a bytes.Buffer", n, 2)
+}
+
+func rulePOOL5(c *Ctx) {
+	p := c.P
+	n := 0
+	getters := map[string]string{"getStrings": "putStrings", "getObjectMembers": "putObjectMembers"}
+	for _, f := range p.FuncsIn("json", "jsontext") {
+		if f.Body() == nil {
+			continue
+		}
+		info := f.Info()
+		// locals bound to a pooled object
+		type pooled struct {
+			v   types.Object
+			put string
+		}
+		var ps []pooled
+		InspectNoLit(f.Body(), func(nd ast.Node) bool {
+			as, ok := nd.(*ast.AssignStmt)
+			if !ok || len(as.Lhs) != 1 || len(as.Rhs) != 1 {
+				return true
+			}
+			call, ok := ast.Unparen(as.Rhs[0]).(*ast.CallExpr)
+			if !ok {
+				return true
+			}
+			if cf := Callee(info, call); cf != nil {
+				if put, ok := getters[cf.Name()]; ok {
+					if v := IdentObj(info, as.Lhs[0]); v != nil {
+						ps = append(ps, pooled{v, put})
+					}
+				}
+			}
+			return true
+		})
+		for _, pl := range ps {
+			n++
+			type st struct{ puts, deferred uint8 }
+			var bad token.Pos
+			isPut := func(call *ast.CallExpr) bool {
+				cf := Callee(info, call)
+				return cf != nil && cf.Name() == pl.put && len(call.Args) == 1 && IdentObj(info, call.Args[0]) == pl.v
+			}
+			fl := &Flow[st]{Fn: f}
+			fl.Node = func(nd ast.Node, s st) []st {
+				switch x := nd.(type) {
+				case *ast.DeferStmt:
+					if isPut(x.Call) && s.deferred < 3 {
+						s.deferred++
+					}
+					return []st{s}
+				case *ast.AssignStmt:
+					// a fresh object taken from the pool starts a new count
+					if len(x.Lhs) == 1 && IdentObj(info, x.Lhs[0]) == pl.v {
+						s.puts = 0
+					}
+				case *ast.ReturnStmt:
+					for _, call := range CallsIn(nd) {
+						if isPut(call) && s.puts < 3 {
+							s.puts++
+						}
+					}
+					if s.puts+s.deferred > 1 && bad == token.NoPos {
+						bad = x.Pos()
+					}
+					return nil
+				}
+				for _, call := range CallsIn(nd) {
+					if isPut(call) && s.puts < 3 {
+						s.puts++
+					}
+				}
+				return []st{s}
+			}
+			fl.Run(st{})
+			// falling off the end of a closure or function without a return statement
+			pos := pl.v.Pos()
+			if bad != token.NoPos {
+				pos = bad
+			}
+			c.Oblige(fmt.Sprintf("put-at-most-once:%s:%s", f.Name, pl.v.Name()), pos, bad == token.NoPos, "the pooled object `"+pl.v.Name()+"` is returned to its pool twice on a path that ends here (explicit put plus deferred put): two later borrowers receive the same backing slice and overwrite each other")
+		}
+	}
+	c.Floor("locals holding a pooled scratch object", n, 3)
+}
+
+// codecLooseFirst: in timeArshaler.unmarshal every strictness rejection (a return that builds a time.ParseError, directly,
+// through a local closure or through a private helper) is reached only on paths where the looseRFC3339 field —
+// ParseTimeWithLooseRFC3339 — has been tested and found false.
+func codecLooseFirst(c *Ctx) {
+	p := c.P
+	f := p.Func("json.(*timeArshaler).unmarshal")
+	if f == nil || f.Body() == nil {
+		c.Undecide("json.(*timeArshaler).unmarshal", "function missing")
+		return
+	}
+	info := f.Info()
+	hasParseErrLit := func(n ast.Node, gi *types.Info) bool {
+		found := false
+		ast.Inspect(n, func(m ast.Node) bool {
+			if cl, ok := m.(*ast.CompositeLit); ok {
+				if t := gi.TypeOf(cl); t != nil && isNamed(t, "time", "ParseError") {
+					found = true
+				}
+			}
+			return !found
+		})
+		return found
+	}
+	// callables that build a ParseError
+	rejecting := map[types.Object]bool{}
+	InspectNoLit(f.Body(), func(nd ast.Node) bool {
+		if as, ok := nd.(*ast.AssignStmt); ok && len(as.Lhs) == 1 && len(as.Rhs) == 1 {
+			if lit, ok := ast.Unparen(as.Rhs[0]).(*ast.FuncLit); ok && hasParseErrLit(lit, info) {
+				if v := IdentObj(info, as.Lhs[0]); v != nil {
+					rejecting[v] = true
+				}
+			}
+		}
+		return true
+	})
+	scope := p.CalleeClosure(f, 3)
+	for changed := true; changed; {
+		changed = false
+		for _, g := range scope {
+			if g == f || g.Decl == nil || g.Obj == nil || g.Body() == nil || rejecting[g.Obj] {
+				continue
+			}
+			is := hasParseErrLit(g.Body(), g.Info())
+			if !is {
+				for _, call := range CallsIn(g.Body()) {
+					if cf := Callee(g.Info(), call); cf != nil && rejecting[cf] {
+						is = true
+					}
+				}
+			}
+			if is {
+				rejecting[g.Obj] = true
+				changed = true
+			}
+		}
+	}
+	rejects := func(nd ast.Node) bool {
+		if hasParseErrLit(nd, info) {
+			return true
+		}
+		for _, call := range CallsIn(nd) {
+			if id, ok := ast.Unparen(call.Fun).(*ast.Ident); ok && rejecting[IdentObj(info, id)] {
+				return true
+			}
+			if cf := Callee(info, call); cf != nil && rejecting[cf] {
+				return true
+			}
+		}
+		return false
+	}
+	type st struct{ loose tri }
+	nRej := 0
+	var bad token.Pos
+	fl := &Flow[st]{Fn: f}
+	fl.Node = func(nd ast.Node, s st) []st {
+		if r, ok := nd.(*ast.ReturnStmt); ok {
+			if rejects(r) {
+				nRej++
+				if s.loose != triNo && bad == token.NoPos {
+					bad = r.Pos()
+				}
+			}
+			return nil
+		}
+		return []st{s}
+	}
+	fl.Leaf = func(e ast.Expr, s st) (t, fs []st) {
+		if fv := SelField(info, e); fv != nil && fv.Name() == "looseRFC3339" {
+			yes, no := s, s
+			yes.loose, no.loose = triYes, triNo
+			return []st{yes}, []st{no}
+		}
+		return []st{s}, []st{s}
+	}
+	fl.Run(st{loose: triUnknown})
+	if nRej == 0 {
+		c.Undecide("json.(*timeArshaler).unmarshal/strict", "no strictness rejection (time.ParseError) found")
+		return
+	}
+	pos := f.Pos()
+	if bad != token.NoPos {
+		pos = bad
+	}
+	c.Oblige("time:loose-rfc3339-skips-strict-checks", pos, bad == token.NoPos, "a strictness check rejects the input on a path where ParseTimeWithLooseRFC3339 (looseRFC3339) has not been tested and found off: with the option on (v1) timestamps that encoding/json accepts are still refused")
+}
+
+// quotedNullDepth: the `"null"` test of a `,string` destination looks at the text that was unquoted exactly once (the
+// JSON string's content). For a Go string the content is itself a quoted string and is unquoted a second time;
+// testing after that second step accepts "\"null\"" as null and refuses "null".
+func quotedNullDepth(c *Ctx) {
+	p := c.P
+	n := 0
+	for _, f := range unmarshalClosures(p) {
+		info := f.Info()
+		// variables compared with "null" through string(v) == "null"
+		type site struct {
+			v   types.Object
+			pos token.Pos
+		}
+		var sites []site
+		InspectNoLit(f.Body(), func(nd ast.Node) bool {
+			be, ok := nd.(*ast.BinaryExpr)
+			if !ok || be.Op != token.EQL {
+				return true
+			}
+			if s, isS := ConstStr(info, be.Y); !isS || s != "null" {
+				return true
+			}
+			if call, ok := ast.Unparen(be.X).(*ast.CallExpr); ok && len(call.Args) == 1 {
+				if tv, ok := info.Types[call.Fun]; ok && tv.IsType() {
+					if v := IdentObj(info, call.Args[0]); v != nil {
+						sites = append(sites, site{v, be.Pos()})
+					}
+				}
+			}
+			return true
+		})
+		for _, st := range sites {
+			isUnq := func(e ast.Expr) bool {
+				call, ok := ast.Unparen(e).(*ast.CallExpr)
+				if !ok {
+					return false
+				}
+				cf := Callee(info, call)
+				return cf != nil && (cf.Name() == "UnquoteMayCopy" || cf.Name() == "AppendUnquote")
+			}
+			type state struct{ unq uint8 }
+			maxAt := -1
+			fl := &Flow[state]{Fn: f}
+			seeAt := func(nd ast.Node, s state) {
+				if nd.Pos() <= st.pos && st.pos < nd.End() {
+					if int(s.unq) > maxAt {
+						maxAt = int(s.unq)
+					}
+				}
+			}
+			fl.Node = func(nd ast.Node, s state) []state {
+				seeAt(nd, s)
+				if as, ok := nd.(*ast.AssignStmt); ok {
+					for i, l := range as.Lhs {
+						if IdentObj(info, l) == st.v {
+							r := as.Rhs[0]
+							if len(as.Rhs) == len(as.Lhs) {
+								r = as.Rhs[i]
+							}
+							if isUnq(r) && s.unq < 3 {
+								s.unq++
+							}
+						}
+					}
+				}
+				if _, ok := nd.(*ast.ReturnStmt); ok {
+					return nil
+				}
+				return []state{s}
+			}
+			fl.Leaf = func(e ast.Expr, s state) (t, fs []state) { seeAt(e, s); return []state{s}, []state{s} }
+			fl.Run(state{})
+			if maxAt < 0 {
+				continue
+			}
+			n++
+			c.Oblige("quoted-null-tested-on-once-unquoted-text:"+f.Name, st.pos, maxAt == 1,
+				fmt.Sprintf("the \"null\" test is applied after %d unquoting steps: encoding/json (v1) recognises a quoted null in the content of the JSON string, i.e. after exactly one", maxAt))
+		}
+	}
+	c.Floor("quoted-null tests on an unquoted local", n, 3)
+}
